@@ -7,6 +7,7 @@
 (*                  terminal state is how a migration enters the retained history.                  *)
 (*   Get(a)         get_migration: pending only.                                                    *)
 (*   Latest(a)      latest_migration: the newest record whatever its status.                        *)
+(*   Update(a, b)   update_transaction: the pending record's body changes, nothing else.            *)
 (*   Cancel(a)      cancel_migration: the pending record becomes `cancelled`.                       *)
 (*   Rollback       the wallet's truncation cascade un-completing a `complete` record: refused     *)
 (*                  (atomically) when the account already has another pending record.               *)
@@ -39,6 +40,11 @@ Replace(a, st, b) ==
            ELSE Len(rows) < MaxRows /\ rows' = Append(rows, rec)
         /\ last' = rec /\ UNCHANGED revived
 
+Update(a, b) ==
+    /\ Pending(a) # {}
+    /\ rows' = [rows EXCEPT ![CHOOSE k \in Pending(a) : TRUE].body = b]
+    /\ last' = [Get(a) EXCEPT !.body = b] /\ UNCHANGED revived
+
 Cancel(a) ==
     /\ Pending(a) # {}
     /\ rows' = [rows EXCEPT ![CHOOSE k \in Pending(a) : TRUE].status = "cancelled"]
@@ -51,6 +57,7 @@ Rollback(k) ==
     /\ last' = NoRec
 
 Next == \/ \E a \in Accounts, st \in Statuses, b \in Bodies : Replace(a, st, b)
+        \/ \E a \in Accounts, b \in Bodies : Update(a, b)
         \/ \E a \in Accounts : Cancel(a)
         \/ \E k \in 1..MaxRows : Rollback(k)
 Spec == Init /\ [][Next]_vars
